@@ -229,7 +229,11 @@ void run_extract(vf::Ctx &c) {
   std::map<std::string, std::string> hdr;
   for (auto &kv : sd[si].h) hdr[kv.first] = kv.second;
   std::string desc = vf::sfmt("%s seed%d", format == 0 ? "b3-single" : format == 1 ? "b3-multi" : "jaeger", si);
-  int nm = c.pick("mutations", (c.thorough() ? 2 : 1) + 1);
+  // two mutations (thorough): on the core seeds only, second mutation over the reduced alphabet
+  static const std::vector<int> core[3] = {{0, 3, 5, 6}, {0, 7}, {0, 2, 5}};
+  bool is_core = false;
+  for (int k : core[format]) is_core |= (k == si);
+  int nm = c.pick("mutations", (c.thorough() && is_core ? 2 : 1) + 1);
   int last_target = 0;
   size_t minpos = 0;
   for (int i = 0; i < nm; ++i) {
